@@ -234,3 +234,50 @@ Theorem outside_legacy_refuted :
   outside_after true link_world ext_example = Some (Dir []) /\
   outside_after false link_world ext_example = ext_example.
 Proof. vm_compute. split; reflexivity. Qed.
+
+(* ---------- mixed histories: `record -d DIR`, `record --host H -d DIR` and live-mode runs in any order ---------- *)
+Inductive cmd := CRecord (r : run) | CHost (r : run) | CLive (r : run).
+Definition cmd_step (w : world) (c : cmd) : world :=
+  match c with
+  | CRecord r => fst (record_run true w r)
+  | CHost r => fst (record_run_host true w r)
+  | CLive r => live_run true w r
+  end.
+Definition history (w : world) (cs : list cmd) : world := fold_left cmd_step cs w.
+
+Lemma live_foreign_old w r : foreign (old w) = true -> old (live_run true w r) = old w.
+Proof. intro F. unfold live_run. cbn [old]. apply run_foreign_old, F. Qed.
+
+Lemma cmd_step_foreign_dir w c : foreign (dir w) = true -> cmd_step w c = w.
+Proof.
+  intro F. destruct c as [r|r|r]; cbn [cmd_step].
+  - rewrite (run_foreign_dir w r F). reflexivity.
+  - rewrite (host_run_foreign_dir w r F). reflexivity.
+  - apply live_never_removes_foreign, F.
+Qed.
+Lemma cmd_step_foreign_old w c : foreign (old w) = true -> old (cmd_step w c) = old w.
+Proof.
+  intro F. destruct c as [r|r|r]; cbn [cmd_step].
+  - apply run_foreign_old, F.
+  - apply host_run_foreign_old, F.
+  - apply live_foreign_old, F.
+Qed.
+
+Theorem mixed_foreign_dir_forever cs : forall w, foreign (dir w) = true -> history w cs = w.
+Proof.
+  unfold history. induction cs as [|c cs IH]; intros w F; cbn [fold_left]; [reflexivity|].
+  rewrite (cmd_step_foreign_dir w c F). apply IH, F.
+Qed.
+Theorem mixed_foreign_old_forever cs : forall w, foreign (old w) = true -> old (history w cs) = old w.
+Proof.
+  unfold history. induction cs as [|c cs IH]; intros w F; cbn [fold_left]; [reflexivity|].
+  rewrite IH; rewrite (cmd_step_foreign_old w c F); [reflexivity|exact F].
+Qed.
+(* non-vacuity: histories in which the three kinds of run all do something, next to a foreign DIR.old *)
+Definition w_mixed : world := {| dir := None; old := Some notes |}.
+Lemma mixed_example :
+  foreign (old w_mixed) = true /\
+  history w_mixed [CLive r0; CRecord r0; CHost r0; CRecord r0] = {| dir := fresh []; old := Some notes |} /\
+  history w_mixed [CLive r0; CHost r0] = w_mixed /\
+  history {| dir := None; old := None |} [CRecord r0; CLive r0; CHost r0; CRecord r0] = {| dir := fresh []; old := fresh [] |}.
+Proof. vm_compute. repeat split. Qed.
